@@ -130,6 +130,18 @@ func Harness_C07_step() {
 		for _, f := range g {
 			vassert(f.ctx.Err() == nil, "dispatching other requests does not cancel an in-flight call")
 		}
+		// the batch is in flight now (no reply sent yet): every accepted call's id
+		// is reserved, whatever the outcome of the call is going to be - also
+		// when no handler was found for it (its reply waits for the batch)
+		for i, t := range ts {
+			if ids[i] == "" || batch[i].err != nil || batch[i].M == "" {
+				continue
+			}
+			if t.err != nil && ErrorCode(t.err) == InvalidRequest {
+				continue // rejected as a duplicate
+			}
+			vassert(s.used[ids[i]] != nil, "C07: the id of a call whose reply has not been sent yet is reserved (method-not-found included)")
+		}
 		// handlers run and return
 		for _, t := range ts {
 			if t.err == nil {
